@@ -710,6 +710,41 @@ m("C15", "malformed-not-reported", NET,
   "				s.Reset() // nolint: errcheck,gosec\n				log.Debugf(\"net handleNewStream from %s error: %s\", p, err)",
   "C15.3", "malformed stream not reported")
 
+# ---------------- C17
+CSB = "channelsubscriptions/channelsubscriptions.go"
+m("C17", "table-keyed-by-transfer-id", CSB,
+  "	cbs := cs.subscriptions[state.ChannelID()]",
+  "	cbs := cs.subscriptions[datatransfer.ChannelID{ID: state.TransferID()}]",
+  "C17.3", "per-transfer subscribers looked up by transfer id only", "seeded/C17a")
+m("C17", "early-unsubscribe", CSB,
+  "func (cs *ChannelSubscriptions) Stop() {",
+  "// Unsubscribe drops the subscribers registered for the given channel\nfunc (cs *ChannelSubscriptions) Unsubscribe(chid datatransfer.ChannelID) {\n	cs.subscriptionsLk.Lock()\n	defer cs.subscriptionsLk.Unlock()\n	delete(cs.subscriptions, chid)\n}\n\nfunc (cs *ChannelSubscriptions) Stop() {",
+  "C17.3", "per-transfer subscriber released before the channel terminated", "seeded/C17b")
+m("C17", "release-on-cleanup", CSB,
+  "	if channels.IsChannelTerminated(state.Status()) {",
+  "	if channels.IsChannelCleaningUp(state.Status()) {",
+  "C17.3", "per-transfer subscriber released before the terminal event is announced")
+m("C17", "publish-twice", IMPL,
+  "	err := m.pubSub.Publish(internalEvent{evt, chst})\n	if err != nil {",
+  "	err := m.pubSub.Publish(internalEvent{evt, chst})\n	if err == nil && evt.Code == datatransfer.Error {\n		err = m.pubSub.Publish(internalEvent{evt, chst})\n	}\n	if err != nil {",
+  "C17.1", "error events announced twice")
+m("C17", "stale-state-in-event", CH,
+  "	c.notifier(evt, c.fromInternalChannelState(realChannel))",
+  "	st, _ := c.GetByID(context.TODO(), datatransfer.ChannelID{ID: realChannel.TransferID, Initiator: realChannel.Initiator, Responder: realChannel.Responder})\n	c.notifier(evt, st)",
+  "C17.1", "subscribers receive a later state than the one resulting from the event")
+m("C17", "extra-publisher", IMPL,
+  "	m.channelMonitor.Shutdown()\n	m.spansIndex.EndAll()",
+  "	m.channelMonitor.Shutdown()\n	_ = m.pubSub.Publish(internalEvent{evt: datatransfer.Event{Code: datatransfer.Disconnected}})\n	m.spansIndex.EndAll()",
+  "C17.2", "an event that was never applied is announced")
+m("C17", "subscribe-after-open", IMPL,
+  "	if options := tc.TransportOptions(); len(options) > 0 {\n		m.transportOptions.SetOptions(chid, options)\n	}\n\n	if eventsCb := tc.EventsCb(); eventsCb != nil {\n		m.channelSubscriptions.Subscribe(chid, eventsCb)\n	}\n\n	if err := m.channels.Open(chid); err != nil {\n		return chid, err\n	}\n",
+  "	if options := tc.TransportOptions(); len(options) > 0 {\n		m.transportOptions.SetOptions(chid, options)\n	}\n\n	if err := m.channels.Open(chid); err != nil {\n		return chid, err\n	}\n\n	if eventsCb := tc.EventsCb(); eventsCb != nil {\n		m.channelSubscriptions.Subscribe(chid, eventsCb)\n	}\n",
+  "C17.3", "per-transfer subscriber misses the Open event")
+m("C17", "dispatcher-wrong-state", IMPL,
+  "	cb(ie.evt, ie.state)\n	return nil",
+  "	cb(ie.evt, nil)\n	return nil",
+  "C17.1", "subscribers called without the resulting state")
+
 by = collections.defaultdict(list)
 for x in M:
     p = x.pop("prop")
